@@ -1131,7 +1131,8 @@ func (ctx Ctx) coqRecurFunc(fullFuncName string, e *ast.Ident) coq.Expr {
 	}
 	fun := obj.(*types.Func)
 
-	if fun.Scope().Contains(e.Pos()) {
+	// (methods of instantiated generic types have no scope of their own)
+	if scope := fun.Scope(); scope != nil && scope.Contains(e.Pos()) {
 		return coq.GallinaString(fullFuncName)
 	} else {
 		return coq.GallinaIdent(fullFuncName)
